@@ -11,6 +11,8 @@ import threading
 
 _lock = threading.Lock()
 EVALS = {}  # hook name -> number of evaluations
+UNAVAILABLE = {}  # hook name -> why the target could not be found (the tree was refactored): the hook is then skipped,
+#                   never an error: taps only confirm/classify, verdicts come from the oracles at the API boundary
 
 
 def bump(name, n=1):
@@ -34,8 +36,14 @@ def wrap(modname, qualname, before=None, after=None, name=None, rebind=()):
     before(args, kwargs) -> token ; after(token, args, kwargs, result, exc) -> None.
     `rebind` lists (module, attr) pairs holding `from m import f` copies to re-point.
     Returns the original callable."""
-    mod, parent, orig = resolve(modname, qualname)
     hook = name or "%s.%s" % (modname, qualname)
+    try:
+        mod, parent, orig = resolve(modname, qualname)
+        if not callable(orig):
+            raise TypeError("%s.%s is not callable" % (modname, qualname))
+    except Exception as e:  # renamed/moved/removed in the tree under test
+        UNAVAILABLE[hook] = "%s: %s" % (type(e).__name__, e)
+        return None
     raw = orig
     is_static = is_class = False
     attr = qualname.split(".")[-1]
@@ -46,18 +54,27 @@ def wrap(modname, qualname, before=None, after=None, name=None, rebind=()):
         elif isinstance(d, classmethod):
             is_class, raw = True, d.__func__
 
+    def safely(cb, *a):
+        # a callback that trips over a refactored internal (renamed attribute, changed signature) must never change what
+        # the library call does: it is counted and skipped
+        try:
+            return cb(*a)
+        except Exception as e:  # noqa
+            bump("hook-error:%s:%s" % (hook, type(e).__name__))
+            return None
+
     @functools.wraps(raw)
     def wrapper(*args, **kwargs):
         bump(hook)
-        token = before(args, kwargs) if before else None
+        token = safely(before, args, kwargs) if before else None
         try:
             result = raw(*args, **kwargs)
         except BaseException as e:
             if after:
-                after(token, args, kwargs, None, e)
+                safely(after, token, args, kwargs, None, e)
             raise
         if after:
-            after(token, args, kwargs, result, None)
+            safely(after, token, args, kwargs, result, None)
         return result
 
     wrapper.__rv_original__ = raw
